@@ -20,7 +20,9 @@ RULE = ('Hypothesis settings files: 1-6 INPUT lines mixing normal / uniform / tr
         'process that calls MC_GeoPHIRES3.main. Oracle on the parsed result rows (strict grammar): vectors of continuous '
         'inputs pairwise distinct, every sample in its support, rows == ITERATIONS, and no sample vector shared between rows. '
         'Non-trivial = ITERATIONS >= 2 x min(w, ITERATIONS...) i.e. some worker runs at least two iterations, and >= 1 '
-        'continuous input; distinct by settings.')
+        'continuous input; distinct by settings. One case in four carries a fault mix (one input straddling a validity bound, so a '
+        'subset of the iterations fails): there rows == number of simulations that returned a result, counted by a harness-side '
+        'wrapper around the client call inherited by the forked workers.')
 ASSUMPTIONS = ['the OS interleaves the workers: schedules are sampled by varying the worker count and load, not enumerated',
                'all iterations valid by construction (distribution supports inside the declared ranges)']
 
@@ -44,7 +46,7 @@ def evaluate(s, rec):
         rec.violation(clause, case, detail, **sig, **extra)
 
     cont = [i for i in s['inputs'] if i[1] != 'binomial']
-    labels = [f'program:{s["program"]}', f'workers:{s["workers"]}'] + sorted(set('dist:' + i[1] for i in s['inputs']))
+    labels = [f'program:{s["program"]}', f'workers:{s["workers"]}'] + (['fault_mix'] if s.get('fault') else []) + sorted(set('dist:' + i[1] for i in s['inputs']))
     if not s.get('final_newline', True):
         labels.append('base_without_final_newline')
     nt = s['iterations'] >= 2 * min(s['workers'], 16) and len(cont) >= 1 or (s['workers'] <= 3 and s['iterations'] >= 2 * s['workers'] and len(cont) >= 1)
@@ -60,11 +62,19 @@ def evaluate(s, rec):
         if torn:
             bad('row_grammar', {'bad_rows': torn[:3], 'n_bad': len(torn)})
         good = [p for p in parsed if p]
-        if len(rows) != s['iterations']:
+        if s.get('fault'):
+            # a subset of the iterations fails: exactly one row per simulation that returned a result (counted by the harness)
+            if len(rows) != r.get('successes'):
+                bad('row_count', {'rows': len(rows), 'successful_simulations': r.get('successes'), 'iterations': s['iterations'],
+                                  'workers': s['workers'], 'mc_error': r.get('error')},
+                    direction='fewer_than_successes' if len(rows) < r.get('successes', 0) else 'more_than_successes')
+        elif len(rows) != s['iterations']:
             bad('row_count', {'rows': len(rows), 'iterations': s['iterations'], 'workers': s['workers'], 'mc_error': r.get('error')},
                 direction='fewer' if len(rows) < s['iterations'] else 'more')
         if not r['ok']:
-            if len(rows) == s['iterations'] and not torn:
+            if s.get('fault') and r.get('successes') == 0 and not rows:
+                rec.label('all_iterations_failed')
+            elif len(rows) == (r.get('successes') if s.get('fault') else s['iterations']) and not torn:
                 # all rows are there; the driver died afterwards while summarising (e.g. zero-variance histogram of a 1e15-sized
                 # output): outside this property, counted
                 rec.label('summary_stage_failed_after_complete_rows')
@@ -96,7 +106,14 @@ def run_shard(spec, rec):
         if rec.out_of_time():
             return
         evaluate(s, rec)
-    drive(mc.settings(max_iter=60 if spec['tier'] == 'quick' else 200), fn, spec['n'], spec['seed'])
+    @st.composite
+    def cases(draw):
+        fault = draw(st.integers(0, 3)) == 0
+        s = draw(mc.settings(fault_mix=fault, max_iter=60 if spec['tier'] == 'quick' else 200))
+        if fault and s['program'] == 'HIP':
+            s['iterations'] = max(s['iterations'], draw(st.integers(30, 80)))
+        return s
+    drive(cases(), fn, spec['n'], spec['seed'])
 
 
 NO_SHRINK = True
